@@ -1238,6 +1238,12 @@ func (r *Raft) appendConfigurationEntry(future *configurationChangeFuture) {
 	}
 
 	r.dispatchLogs([]*logFuture{&future.logFuture})
+	if r.getState() != Leader {
+		// dispatchLogs could not store the entry: it has answered the
+		// future and stepped down. The configuration is not in the log
+		// and must not become our latest one.
+		return
+	}
 	index := future.Index()
 	r.setLatestConfiguration(configuration, index)
 	r.leaderState.commitment.setConfiguration(configuration)
